@@ -56,7 +56,12 @@ def make_case(v, variant, k):
         entries[name + "x"] = False
         entries[name + "y"] = True
     if variant == "cd":
-        entries[name + "f"] = False       # a file with the same prefix must not be offered after cd
+        # a file that shares the typed prefix but then differs must not be offered after cd: if it is, the inserted common
+        # prefix stops short of the directory's name and `cd` goes nowhere
+        decoy = prefix + "Z"
+        if decoy == name:
+            decoy = prefix + "Y"
+        entries[decoy] = False
     cmd = "cd" if variant == "cd" else "vpa"
     return {"name": name, "ctx": ctx, "variant": variant, "prefix": prefix, "line": "%s %s%s" % (cmd, opener, typed),
             "entries": entries, "for_dir": variant == "cd", "pinned_ok": v["pinned_ok"],
@@ -234,6 +239,10 @@ def runner(rep, tier, seed, replay):
         to_run += idxs[:2]
     nsample = min(len(okidx), 60 if tier == "quick" else 900)
     to_run += rnd.sample(okidx, nsample)
+    # which completer the line editor picks (cd: directories only) is decided by the real dispatch in the binary only:
+    # every `cd` case is typed at the pty
+    to_run += [i for i in okidx if cases[i]["variant"] == "cd"]
+    to_run = sorted(set(to_run))
     log("[C20] pty layer: %d mismatch clusters, %d sessions" % (len(clusters), len(to_run)))
 
     def one(i):
